@@ -834,8 +834,18 @@ class World:
     def _deletable(self, model, uid) -> bool:
         return all(model.recs[u]["flags"]["allow_delete"] for u in model.subtree(uid))
 
+    def _rm_target(self, rng, h):
+        """Removal target: any entity; in a third of the cases a data set that sits in a property group (if there is one)."""
+        if rng.random() < 0.35:
+            model = self.h[h].model
+            grouped = {d for rec in model.recs.values() for pg in (rec.get("pgs") or {}).values() for d in pg["props"]}
+            t = self.target(rng, h, "entity", lambda r: r["uid"] in grouped)
+            if t is not None:
+                return t
+        return self.target(rng, h, "entity")
+
     def gen_rm_ws(self, rng, h):
-        t = self.target(rng, h, "entity")
+        t = self._rm_target(rng, h)
         return None if t is None else {"t": t}
 
     def do_rm_ws(self, op):
@@ -878,7 +888,7 @@ class World:
         return gone
 
     def gen_rm_parent(self, rng, h):
-        t = self.target(rng, h, "entity")
+        t = self._rm_target(rng, h)
         return None if t is None else {"t": t}
 
     def do_rm_parent(self, op):
@@ -916,7 +926,15 @@ class World:
         t = self.target(rng, h, "data", lambda r: not r.get("concat") and r["attrs"].get("Association") in ("VERTEX", "CELL"))
         if t is None:
             return None
-        return {"t": t, "pg": rng.choice(["pgA", "pgB", "pgC"])}
+        pred = lambda r: not r.get("concat") and r["attrs"].get("Association") in ("VERTEX", "CELL")  # noqa: E731
+        name, cross = rng.choice(["pgA", "pgB", "pgC"]), rng.random() < 0.4
+        if cross:
+            model = self.h[h].model
+            rec = model.recs[self.resolve(h, t, pred)]
+            other = sorted(pg["name"] for pg in model.recs[rec["parent"]].get("pgs", {}).values() if pg["assoc"] != rec["attrs"]["Association"])
+            if other:
+                name = rng.choice(other)      # a group of the other association on the same object
+        return {"t": t, "pg": name, "cross": cross}
 
     def do_pg_add(self, op):
         h = op["h"]
@@ -931,7 +949,10 @@ class World:
         assoc = rec["attrs"]["Association"]
         for pg in owner["pgs"].values():
             if pg["name"] == op["pg"] and pg["assoc"] != assoc:
-                return "skipped"
+                # the library does not compare associations: vertex data may join a cell group (and the reverse)
+                if not op.get("cross"):
+                    return "skipped"
+                self.sim.probe("pg_cross_association")
         self.touch_pg(h, rec["parent"])
         obj = self.ent(h, rec["parent"])
         data = self.ent(h, uid)
